@@ -807,7 +807,9 @@ void
 CrashReport(const char *what, int sig)
 {
   static std::atomic<int> once{0};
-  if (once.exchange(1) != 0) _exit(4);
+  if (once.exchange(1) != 0) {
+    for (;;) pause();  // another thread is already writing the report and will end the process
+  }
   if (tl_in_gpe) ClassifyLookup();
   const char *hc = tl_in_gpe ? HistoryClass() : "outside-GetProtectedEpochs";
   char buf[1536];
@@ -1529,7 +1531,9 @@ void
 LongCrashHandler(int sig, siginfo_t *, void *)
 {
   static std::atomic<int> once{0};
-  if (once.exchange(1) != 0) _exit(4);
+  if (once.exchange(1) != 0) {
+    for (;;) pause();  // another thread is already writing the report and will end the process
+  }
   char buf[1024];
   const int n = snprintf(buf, sizeof buf,
                          "RESULT {\"status\":\"crash\",\"counters\":{\"evaluations\":%" PRIu64 ",\"forwards\":%" PRIu64 "},\"strings\":{},\"chaos\":{},"
